@@ -155,9 +155,45 @@ def k14_exe():
     return common.build_harness("k14_desc", extra_src=["imbh.c"], extra_flags=["-I", gen])
 
 
+_PRIV = {}
+
+
+def private_lib(tag):
+    """Other checks rebuild/relink the shared .build/lib concurrently; run the harnesses against a private copy of the
+    library taken right after this check's own build."""
+    import shutil
+    d = os.path.join(common.BUILD, tag, "lib")
+    os.makedirs(d, exist_ok=True)
+    src = os.path.realpath(os.path.join(common.LIBSO_DIR, "libIPSec_MB.so"))
+    for attempt in range(20):
+        try:
+            tmp = os.path.join(d, "copy.tmp")
+            shutil.copyfile(src, tmp)
+            if os.path.getsize(tmp) > 1 << 20 and open(tmp, "rb").read(4) == b"\x7fELF":
+                p = common.run(["readelf", "-h", tmp])
+                if p.returncode == 0:
+                    break
+        except OSError:
+            pass
+        time.sleep(0.5)
+    real = os.path.join(d, "libIPSec_MB.so.2.0.0")
+    os.replace(tmp, real)
+    for ln in ("libIPSec_MB.so.2", "libIPSec_MB.so"):
+        lp = os.path.join(d, ln)
+        if os.path.islink(lp) or os.path.exists(lp):
+            os.remove(lp)
+        os.symlink("libIPSec_MB.so.2.0.0", lp)
+    _PRIV["dir"] = d
+    return d
+
+
+def lib_env():
+    return {"LD_LIBRARY_PATH": _PRIV.get("dir", common.LIBSO_DIR)}
+
+
 def run_cmd(args, timeout):
     try:
-        p = common.run(args, env=common.lib_env(), timeout=timeout)
+        p = common.run(args, env=lib_env(), timeout=timeout)
         return p.returncode, p.stdout, p.stderr
     except Exception as ex:
         out = getattr(ex, "stdout", None) or ""
@@ -399,6 +435,7 @@ def main(tier, seed):
                            "descriptor writes (checked on every job run) and assumed to leave the error mirror alone (checked after every call); "
                            "libc strerror() assumed non-NULL"])
     exe = k14_exe()
+    private_lib("c14")
     rng = Rng(seed)
     items, expect = gen_items(rng, tier)
     variants = list_variants(exe)
@@ -518,6 +555,7 @@ def replay(path):
     vals, t9, t14, terrs = translators()
     ERR.update({k: v for k, v in vals.items() if k.startswith("IMB_ERR_")})
     exe = k14_exe()
+    private_lib("c14")
     x = rp.get("first", {})
     workdir = os.path.join(common.BUILD, "c14")
     os.makedirs(workdir, exist_ok=True)
